@@ -291,4 +291,110 @@ theorem runHistT_born {f : Nat} {s s' : Sim} {sts : List Step} {tr : List (Ev ×
         · exact runStepT_born hw h₁ y hy
         · exact ih (runStepT_spec hw h₁).1 h₂ y hy
 
+/-! ### the traced history erased is the plain history; every `ReachableFrom` history is one -/
+
+def runStep (f : Nat) (s : Sim) : Step → Option Sim
+  | .cmd c => some (doCmd s c)
+  | .until t => runUntil f s t
+  | .for d => runUntil f s (s.now + d)
+  | .next => some (runNext s)
+  | .caught => some (caught s)
+
+/-- a history without trace: nothing but the model's own operations, one after the other -/
+def runHist (f : Nat) : Sim → List Step → Option Sim
+  | s, [] => some s
+  | s, st :: sts =>
+    match runStep f s st with
+    | none => none
+    | some s₁ => runHist f s₁ sts
+
+theorem runNextT_fst (s : Sim) : (runNextT s).1 = runNext s := by unfold runNextT; split <;> rfl
+
+theorem runStepT_erase (f : Nat) (s : Sim) (st : Step) : (runStepT f s st).map (·.1) = runStep f s st := by
+  cases st with
+  | cmd c => rfl
+  | «until» t => exact runUntilT_erase f s t
+  | «for» d => exact runUntilT_erase f s _
+  | next => simp [runStepT, runStep, runNextT_fst]
+  | caught => rfl
+
+theorem runHistT_erase (f : Nat) (s : Sim) (sts : List Step) : (runHistT f s sts).map (·.1) = runHist f s sts := by
+  induction sts generalizing s with
+  | nil => rfl
+  | cons st sts ih =>
+    simp only [runHistT, runHist]
+    rw [← runStepT_erase]
+    cases h1 : runStepT f s st with
+    | none => rfl
+    | some q =>
+      obtain ⟨s₁, tr₁⟩ := q
+      simp only [Option.map_some]
+      rw [← ih]
+      cases runHistT f s₁ sts with
+      | none => rfl
+      | some q2 => rfl
+
+theorem runHistT_of_runHist {f : Nat} {s s' : Sim} {sts : List Step} (h : runHist f s sts = some s') :
+    ∃ tr, runHistT f s sts = some (s', tr) := by
+  have := runHistT_erase f s sts
+  rw [h] at this
+  cases hT : runHistT f s sts with
+  | none => simp [hT] at this
+  | some p =>
+    simp only [hT, Option.map_some, Option.some.injEq] at this
+    exact ⟨p.2, by rw [← this]⟩
+
+theorem runStep_fuel_le {f g : Nat} {s s' : Sim} {st : Step} (hfg : f ≤ g) (h : runStep f s st = some s') :
+    runStep g s st = some s' := by
+  cases st with
+  | cmd c => exact h
+  | «until» t => exact runUntil_fuel_le hfg h
+  | «for» d => exact runUntil_fuel_le hfg h
+  | next => exact h
+  | caught => exact h
+
+theorem runHist_fuel_le {f g : Nat} {s s' : Sim} {sts : List Step} (hfg : f ≤ g) (h : runHist f s sts = some s') :
+    runHist g s sts = some s' := by
+  induction sts generalizing s with
+  | nil => exact h
+  | cons st sts ih =>
+    simp only [runHist] at h ⊢
+    split at h
+    · simp at h
+    · rename_i s₁ h₁
+      simp only [runStep_fuel_le hfg h₁]
+      exact ih h
+
+theorem runHist_snoc {f : Nat} {s s₁ s' : Sim} {sts : List Step} {st : Step} (h : runHist f s sts = some s₁)
+    (h2 : runStep f s₁ st = some s') : runHist f s (sts ++ [st]) = some s' := by
+  induction sts generalizing s with
+  | nil =>
+    simp only [runHist, Option.some.injEq] at h; subst h
+    simp only [List.nil_append, runHist, h2]
+  | cons a as ih =>
+    simp only [runHist] at h
+    split at h
+    · simp at h
+    · rename_i sa ha
+      simp only [List.cons_append, runHist, ha]
+      exact ih h
+
+/-- every history `ReachableFrom` speaks about is a list of steps run by `runHist` (hence has a `runHistT` trace) -/
+theorem reachableFrom_runHist {s s' : Sim} (hr : ReachableFrom s s') : ∃ f sts, runHist f s sts = some s' := by
+  induction hr with
+  | refl => exact ⟨0, [], rfl⟩
+  | cmd c _ ih =>
+    obtain ⟨f, sts, h⟩ := ih
+    exact ⟨f, sts ++ [.cmd c], runHist_snoc h rfl⟩
+  | @«until» s₁ s₂ g T _ _ hrun ih =>
+    obtain ⟨f, sts, h⟩ := ih
+    have h2 : runStep (max f g) s₁ (.until T) = some s₂ := runUntil_fuel_le (Nat.le_max_right f g) hrun
+    exact ⟨max f g, sts ++ [.until T], runHist_snoc (runHist_fuel_le (Nat.le_max_left f g) h) h2⟩
+  | next _ ih =>
+    obtain ⟨f, sts, h⟩ := ih
+    exact ⟨f, sts ++ [.next], runHist_snoc h rfl⟩
+  | caught _ ih =>
+    obtain ⟨f, sts, h⟩ := ih
+    exact ⟨f, sts ++ [.caught], runHist_snoc h rfl⟩
+
 end Mesa.Devs
